@@ -504,3 +504,38 @@ def _naming(E, A):
             "RuleMessageNamingPascal": A.Message, "RuleMessageFieldNamingSnake": A.MessageField}
     E.oblige("post:target-classes", z3.BoolVal(all(r.target_class() is want[type(r).__name__] for r in rules)
                                                and all(t in LN.SUPPORTED_TYPES for t in want.values())))
+
+
+# ----------------------------------------------------------------------------- C13: literals in the three target languages
+@gproof("py:formatters.format_int_value", "compiler/bitproto/renderer/impls/c/formatter.py", "CFormatter.format_int_value",
+        ["C13"], must=["post:"],
+        assumes=["format()/str() of a Python int give its decimal numeral, '-' prefixed when negative (external; modelled by a marker "
+                 "standing for str.from_int of the term)"])
+def _fmt_int(E, A):
+    """format_int_value(v) is exactly the decimal numeral of v (nothing before or after it: a valid integer literal in C, Go and
+    Python); format_bool_value gives true/false (True/False in Python); format_value dispatches on the value's kind"""
+    from bitproto.renderer.impls.c.formatter import CFormatter
+    from bitproto.renderer.impls.go.formatter import GoFormatter
+    from bitproto.renderer.impls.py.formatter import PyFormatter
+    from ..pysym.proxies import sym_str_marker
+    import bitproto.renderer.formatter as FM
+    v = E.fresh("v")
+    saved = FM.__dict__.get("isinstance")
+    FM.isinstance = sym_isinstance
+    try:
+        for cls, t, f in ((CFormatter, "true", "false"), (GoFormatter, "true", "false"), (PyFormatter, "True", "False")):
+            fm = cls()
+            r = fm.format_int_value(SymInt(v))
+            E.oblige("post:int[%s]" % cls.__name__, z3.BoolVal(r == sym_str_marker(v)))
+            r = fm.format_value(SymInt(v))
+            E.oblige("post:value-int[%s]" % cls.__name__, z3.BoolVal(r == sym_str_marker(v)))
+            E.oblige("post:bool[%s]" % cls.__name__, z3.BoolVal(fm.format_bool_value(True) == t and fm.format_bool_value(False) == f
+                                                               and fm.format_value(True) == t and fm.format_value(False) == f))
+            E.oblige("post:concrete-int[%s]" % cls.__name__, z3.BoolVal(fm.format_int_value(0) == "0" and fm.format_int_value(65535) == "65535"
+                                                                       and fm.format_value(18446744073709551615) == "18446744073709551615"))
+            E.oblige("post:value-str[%s]" % cls.__name__, z3.BoolVal(fm.format_value("x") == fm.format_str_value("x") == '"x"'))
+    finally:
+        if saved is None:
+            FM.__dict__.pop("isinstance", None)
+        else:
+            FM.isinstance = saved
